@@ -498,3 +498,39 @@ def let_binding_does_not_outlive_the_let(a: int, b: int, x: int) -> bool:
     if L(T3['let_then'].evaluate(ctx)) != [a] or L(T3['after_let'].evaluate(ctx)) != [x] or ctx.variables != v:
         return False
     return True
+
+
+# --- added after the round-4 baseline reports: functions that consume two sequences in parallel give each operand its own focus ---------------
+
+T3.update(parse_all({
+    'par_de': '(deep-equal(*, *), deep-equal(*/local-name(), */local-name()), deep-equal(descendant::*, descendant::*), deep-equal(*, descendant::*), local-name(.))',
+    'par_fep': '(for-each-pair(*, *, function($x, $y) { $x is $y }), local-name(.))',
+    'par_fep_names': 'for-each-pair(descendant::*, */local-name(), function($x, $y) { concat(local-name($x), $y) })',
+    'par_bind': 'deep-equal(for $e in * return local-name($e), for $e in descendant::* return local-name($e))',
+}))
+
+
+@ob(budget=300, bound='4-element tree r(x(z), y), every tag in {a,b}; context item = each of the 4 elements (chosen by the solver): deep-equal and for-each-pair over '
+                      'two relative paths from the same context item see both sequences in full (deep-equal(E, E) is true; for-each-pair pairs the k-th items), '
+                      'also with range variables of the same name in both operands; the focus afterwards is the outer one',
+    funcs=['elementpath/xpath2/_xpath2_functions.py:evaluate__deep_equal', 'elementpath/xpath30/_xpath30_functions.py:select__for_each_pair'])
+def parallel_operands_have_own_focus(t0: str, t1: str, t2: str, t3: str, ci: int) -> bool:
+    """
+    pre: all(len(t) == 1 and 'a' <= t <= 'b' for t in (t0, t1, t2, t3)) and 0 <= ci <= 3
+    post: _
+    """
+    n = _tree(t0, t1, t2, t3, False)
+    doc = ET.ElementTree(n[0])
+    tags = [t0, t1, t2, t3]
+    ci = [j for j in range(4) if j == ci][0]
+    item, here = n[ci], tags[ci]
+    kids = {0: [1, 2], 1: [3], 2: [], 3: []}[ci]
+    desc = {0: [1, 3, 2], 1: [3], 2: [], 3: []}[ci]
+    run = lambda key: L(T3[key].evaluate(XPathContext(doc, item=item)))   # noqa: E731
+    if run('par_de') != [True, True, True, kids == desc, here]:
+        return False
+    if run('par_fep') != [True] * len(kids) + [here]:
+        return False
+    if run('par_fep_names') != [tags[d] + tags[k] for d, k in zip(desc, kids)]:
+        return False
+    return run('par_bind') == [[tags[k] for k in kids] == [tags[d] for d in desc]]
